@@ -116,6 +116,16 @@ def run_symx_check(mod, tier, seed, only=None, procs=None, extra_cov=None, pre_v
                     os.remove(path)
                 except OSError:
                     pass
+    # open findings that carry concrete example specs are re-confirmed natively on every run
+    for k in known:
+        for spec in k.get("replay_specs", []):
+            nrep += 1
+            ok, verdict, path = runner.replay_native(cid, spec, "%s_known_example%d" % (tier, nrep))
+            if ok is True and mod.classify_known(spec, verdict, known) == k["id"]:
+                n, _ = V.known.get(k["id"], (0, k["what"]))
+                V.known[k["id"]] = (n + 1, k["what"])
+            elif ok is True:
+                V.violations.append((path, "[known-finding example behaves differently] %s" % verdict.get("detail", "")))
     tot = runner.summarize(results)
     if tot["completed"] == 0 and not V.violations:
         V.harness.append("no path completed in any task: nothing was checked")
